@@ -19,7 +19,7 @@ use std::collections::{BTreeMap, BTreeSet};
 fn replay_layout(li: usize, form: usize, key: KeyCode, mods: u16, mode: usize, want: &str, got: &str) -> J {
     J::obj()
         .with("kind", J::s("layout"))
-        .with("layout", J::s(LAYOUT_NAMES[li]))
+        .with("layout", J::s(layout_name(li)))
         .with("form", J::s(FORM_NAMES[form]))
         .with("key", J::s(kname(key)))
         .with("mods", J::u(mods as u64))
@@ -34,10 +34,10 @@ fn report_cube_panics(prop: &str, cube: &Cube, rep: &mut Report) {
     for (li, form, ki, mode, mods, msg) in cube.panics.iter() {
         rep.panics += 1;
         rep.violate(
-            format!("{}|{}|{}|key={:?}|panic|{}", prop, LAYOUT_NAMES[*li], FORM_NAMES[*form], cube.keys[*ki], panic_sig(msg)),
+            format!("{}|{}|{}|key={:?}|panic|{}", prop, layout_name(*li), FORM_NAMES[*form], cube.keys[*ki], panic_sig(msg)),
             format!(
                 "{} ({}) map_keycode({:?}, {}, {}) panicked: {}",
-                LAYOUT_NAMES[*li],
+                layout_name(*li),
                 FORM_NAMES[*form],
                 cube.keys[*ki],
                 mods_str(*mods),
@@ -170,7 +170,7 @@ pub fn run_c03(rep: &mut Report) {
                                         match gc {
                                             Some(c) if altgr_all.contains(&c) => false,
                                             _ => {
-                                                altgr_unconstrained.insert(format!("{} {:?} → {}", LAYOUT_NAMES[li], key, cube.show(got)));
+                                                altgr_unconstrained.insert(format!("{} {:?} → {}", layout_name(li), key, cube.show(got)));
                                                 true
                                             }
                                         }
@@ -182,10 +182,10 @@ pub fn run_c03(rep: &mut Report) {
                             } else {
                                 let want = if acc.is_empty() { "no AltGr character of another key".to_string() } else { chars_str(acc) };
                                 rep.violate(
-                                    format!("C03|{}|key={:?}|level={}|want={}|got={}", LAYOUT_NAMES[li], key, LEVEL_NAMES[level as usize], want, cube.show(got)),
+                                    format!("C03|{}|key={:?}|level={}|want={}|got={}", layout_name(li), key, LEVEL_NAMES[level as usize], want, cube.show(got)),
                                     format!(
                                         "{} ({}): key {:?} at the {} level (modifiers {}, Ctrl mode {}) types {}; the layout standard has {}",
-                                        LAYOUT_NAMES[li],
+                                        layout_name(li),
                                         FORM_NAMES[form],
                                         key,
                                         LEVEL_NAMES[level as usize],
@@ -202,7 +202,7 @@ pub fn run_c03(rep: &mut Report) {
                 }
             }
         }
-        rep.count(&format!("reference_cells_{}", LAYOUT_NAMES[li]), lref.n_cells as u64);
+        rep.count(&format!("reference_cells_{}", layout_name(li)), lref.n_cells as u64);
     }
     for level in [Level::Base, Level::Shift, Level::AltGr] {
         for mode in 0..2 {
@@ -224,6 +224,9 @@ pub fn run_c03(rep: &mut Report) {
         let refs: Vec<LayoutRef> = (0..10).map(LayoutRef::load).collect();
         let cube_ref = &cube;
         let acc = |li: usize, ki: usize, m: u16, mode: usize| -> Acc {
+            if li >= 10 {
+                return Acc::Any; // no transcribed standard for a layout the harness does not know
+            }
             let key = cube_ref.keys[ki];
             for level in [Level::Base, Level::Shift] {
                 if selects(level, m, mode) {
@@ -262,7 +265,7 @@ pub fn run_c03(rep: &mut Report) {
     rep.assumptions.push("an AltGr output is constrained only where it differs from the key's base output; on keys for which no AltGr character was transcribed only another key's AltGr character is flagged".into());
     for (li, key, m) in [(1usize, KeyCode::Key3, B_LSHIFT), (3, KeyCode::Q, 0), (2, KeyCode::Q, B_RALT), (9, KeyCode::Key1, 0), (6, KeyCode::Oem13, 0)] {
         let ki = cube.key_index(key).unwrap();
-        rep.sample_str(format!("{} {:?} {} → {}", LAYOUT_NAMES[li], key, mods_str(m), cube.show(cube.get(li, 0, ki, 1, m))));
+        rep.sample_str(format!("{} {:?} {} → {}", layout_name(li), key, mods_str(m), cube.show(cube.get(li, 0, ki, 1, m))));
     }
 }
 
@@ -327,17 +330,17 @@ fn e2e_c03<D: Dec>(rep: &mut Report) {
                         };
                         if !ok {
                             rep.violate(
-                                format!("C03|{}|key={:?}|level={}|want={}|got={}", LAYOUT_NAMES[li], key, LEVEL_NAMES[*level as usize], chars_str(acc), odk_str(&got)),
+                                format!("C03|{}|key={:?}|level={}|want={}|got={}", layout_name(li), key, LEVEL_NAMES[*level as usize], chars_str(acc), odk_str(&got)),
                                 format!(
                                     "{}: typing {:?}+{:?} through Keyboard<_, {}> from scancodes gives {}; the layout standard has {}",
-                                    LAYOUT_NAMES[li],
+                                    layout_name(li),
                                     mods,
                                     key,
                                     crate::scan::set_name(set),
                                     odk_str(&got),
                                     chars_str(acc)
                                 ),
-                                J::obj().with("kind", J::s("e2e-type")).with("layout", J::s(LAYOUT_NAMES[li])).with("set", J::u(set as u64)).with("key", J::s(kname(*key))),
+                                J::obj().with("kind", J::s("e2e-type")).with("layout", J::s(layout_name(li))).with("set", J::u(set as u64)).with("key", J::s(kname(*key))),
                             );
                         }
                     }
@@ -359,7 +362,7 @@ pub fn run_c09(rep: &mut Report) {
     let cube = cube_common("C09", rep);
     let mut letter_keys = 0u64;
     let mut distinct: BTreeSet<(usize, usize)> = BTreeSet::new();
-    for li in 0..10 {
+    for li in 0..cube.n_layouts {
         for form in 0..1 {
             for (ki, key) in cube.keys.iter().enumerate() {
                 // what the layout types on this key with no modifier (NumLock on, as after power-up)
@@ -379,10 +382,10 @@ pub fn run_c09(rep: &mut Report) {
                         let want = (x as u32) - ('a' as u32) + 1;
                         if map != want {
                             rep.violate(
-                                format!("C09|{}|ctrl-letter|key={:?}|letter={}|want=U+{:04X}|got={}", LAYOUT_NAMES[li], key, x, want, cube.show(map)),
+                                format!("C09|{}|ctrl-letter|key={:?}|letter={}|want=U+{:04X}|got={}", layout_name(li), key, x, want, cube.show(map)),
                                 format!(
                                     "{} ({}): key {:?} types '{}', so Ctrl+it ({}, mapping on) must give U+{:04X}; got {}",
-                                    LAYOUT_NAMES[li],
+                                    layout_name(li),
                                     FORM_NAMES[form],
                                     key,
                                     x,
@@ -401,10 +404,10 @@ pub fn run_c09(rep: &mut Report) {
                         if map != ign {
                             let rule = if !f.ctrl { "ctrl-not-held" } else { "non-letter-key" };
                             rep.violate(
-                                format!("C09|{}|mode-leak|key={:?}|rule={}|map={}|ignore={}", LAYOUT_NAMES[li], key, rule, cube.show(map), cube.show(ign)),
+                                format!("C09|{}|mode-leak|key={:?}|rule={}|map={}|ignore={}", layout_name(li), key, rule, cube.show(map), cube.show(ign)),
                                 format!(
                                     "{} ({}): key {:?} with {} gives {} with Ctrl mapping on but {} with it off ({})",
-                                    LAYOUT_NAMES[li],
+                                    layout_name(li),
                                     FORM_NAMES[form],
                                     key,
                                     mods_str(m),
@@ -421,10 +424,10 @@ pub fn run_c09(rep: &mut Report) {
                         let no_ctrl = cube.get(li, form, ki, 1, m & !(B_LCTRL | B_RCTRL));
                         if ign != no_ctrl {
                             rep.violate(
-                                format!("C09|{}|ignore-mode-ctrl-effect|key={:?}|with={}|without={}", LAYOUT_NAMES[li], key, cube.show(ign), cube.show(no_ctrl)),
+                                format!("C09|{}|ignore-mode-ctrl-effect|key={:?}|with={}|without={}", layout_name(li), key, cube.show(ign), cube.show(no_ctrl)),
                                 format!(
                                     "{} ({}): with Ctrl mapping disabled, key {:?} gives {} with {} but {} without the Ctrl keys",
-                                    LAYOUT_NAMES[li],
+                                    layout_name(li),
                                     FORM_NAMES[form],
                                     key,
                                     cube.show(ign),
@@ -471,7 +474,7 @@ pub fn run_c09(rep: &mut Report) {
         let ki = cube.key_index(key).unwrap();
         rep.sample_str(format!(
             "{} key {:?}: alone → {}, {{lctrl}} Map → {}, {{lctrl}} Ignore → {}",
-            LAYOUT_NAMES[li],
+            layout_name(li),
             key,
             cube.show(cube.get(li, 0, ki, 1, B_NUMLOCK)),
             cube.show(cube.get(li, 0, ki, 0, B_NUMLOCK | B_LCTRL)),
@@ -487,7 +490,7 @@ pub fn run_c10(rep: &mut Report) {
     let mut letter_keys = 0u64;
     let mut national = BTreeSet::new();
     let mut distinct: BTreeSet<(usize, usize)> = BTreeSet::new();
-    for li in 0..10 {
+    for li in 0..cube.n_layouts {
         for form in 0..1 {
             for (ki, key) in cube.keys.iter().enumerate() {
                 let base = enc_char(cube.get(li, form, ki, 1, B_NUMLOCK));
@@ -503,7 +506,7 @@ pub fn run_c10(rep: &mut Report) {
                 if is_letter && form == 0 {
                     letter_keys += 1;
                     if !base.unwrap().is_ascii() {
-                        national.insert(format!("{}:{}", LAYOUT_NAMES[li], base.unwrap()));
+                        national.insert(format!("{}:{}", layout_name(li), base.unwrap()));
                     }
                 }
                 for mode in 0..2 {
@@ -520,10 +523,10 @@ pub fn run_c10(rep: &mut Report) {
                             let want = cube.get(li, form, ki, mode, twin);
                             if with_caps != want {
                                 rep.violate(
-                                    format!("C10|{}|letter-key|key={:?}|letter={}|caps-not-inverting-shift|shift={}", LAYOUT_NAMES[li], key, base.unwrap(), shift),
+                                    format!("C10|{}|letter-key|key={:?}|letter={}|caps-not-inverting-shift|shift={}", layout_name(li), key, base.unwrap(), shift),
                                     format!(
                                         "{} ({}): key {:?} types the letter '{}'; with {} it gives {} but CapsLock must act as inverted Shift, i.e. like {} which gives {}",
-                                        LAYOUT_NAMES[li],
+                                        layout_name(li),
                                         FORM_NAMES[form],
                                         key,
                                         base.unwrap(),
@@ -541,10 +544,10 @@ pub fn run_c10(rep: &mut Report) {
                             let without = cube.get(li, form, ki, mode, m & !B_CAPSLOCK);
                             if with_caps != without {
                                 rep.violate(
-                                    format!("C10|{}|non-letter-key|key={:?}|caps-changes-output|off={}|on={}", LAYOUT_NAMES[li], key, cube.show(without), cube.show(with_caps)),
+                                    format!("C10|{}|non-letter-key|key={:?}|caps-changes-output|off={}|on={}", layout_name(li), key, cube.show(without), cube.show(with_caps)),
                                     format!(
                                         "{} ({}): key {:?} is not a letter key (types {} / shifted {}), yet CapsLock changes its output: {} → {} vs {} → {}",
-                                        LAYOUT_NAMES[li],
+                                        layout_name(li),
                                         FORM_NAMES[form],
                                         key,
                                         base.map(char_str).unwrap_or_else(|| "raw".into()),
@@ -598,7 +601,7 @@ pub fn run_c10(rep: &mut Report) {
         let ki = cube.key_index(key).unwrap();
         rep.sample_str(format!(
             "{} key {:?}: {{}} → {}, {{lshift}} → {}, {{capslock}} → {}, {{lshift+capslock}} → {}",
-            LAYOUT_NAMES[li],
+            layout_name(li),
             key,
             cube.show(cube.get(li, 0, ki, 1, 0)),
             cube.show(cube.get(li, 0, ki, 1, B_LSHIFT)),
@@ -614,7 +617,7 @@ pub fn run_c11(rep: &mut Report) {
     let cube = cube_common("C11", rep);
     let mut classes_seen: BTreeSet<(bool, bool, bool, bool, bool)> = BTreeSet::new();
     let mut distinct = 0u64;
-    for li in 0..10 {
+    for li in 0..cube.n_layouts {
         for form in 0..1 {
             for (ki, key) in cube.keys.iter().enumerate() {
                 let numpad = is_numpad_numlock_key(*key);
@@ -637,10 +640,10 @@ pub fn run_c11(rep: &mut Report) {
                                     let diff = m0 ^ m;
                                     let names: Vec<&str> = (0..9).filter(|i| diff & (1 << i) != 0).map(|i| MOD_NAMES[i]).collect();
                                     rep.violate(
-                                        format!("C11|{}|key={:?}|fact-leak|flags={}", LAYOUT_NAMES[li], key, names.join("+")),
+                                        format!("C11|{}|key={:?}|fact-leak|flags={}", layout_name(li), key, names.join("+")),
                                         format!(
                                             "{} ({}), Ctrl mode {}: key {:?} gives {} with {} but {} with {}, although both have the same Shift/Ctrl/AltGr/CapsLock{} facts",
-                                            LAYOUT_NAMES[li],
+                                            layout_name(li),
                                             FORM_NAMES[form],
                                             mode_str(MODES[mode]),
                                             key,
@@ -735,7 +738,7 @@ pub fn run_c11(rep: &mut Report) {
 pub fn run_c12(rep: &mut Report) {
     let cube = cube_common("C12", rep);
     let mut witnesses = 0u64;
-    for li in 0..10 {
+    for li in 0..cube.n_layouts {
         for form in 0..1 {
             let mut found: BTreeMap<char, (KeyCode, u16)> = BTreeMap::new();
             for (ki, key) in cube.keys.iter().enumerate() {
@@ -761,15 +764,15 @@ pub fn run_c12(rep: &mut Report) {
             }
             for c in missing {
                 rep.violate(
-                    format!("C12|{}|missing=U+{:04X}", LAYOUT_NAMES[li], c as u32),
+                    format!("C12|{}|missing=U+{:04X}", layout_name(li), c as u32),
                     format!(
                         "{} ({}): printable ASCII character '{}' (U+{:04X}) is not produced by any key at the unshifted, shifted or AltGr level",
-                        LAYOUT_NAMES[li],
+                        layout_name(li),
                         FORM_NAMES[form],
                         c,
                         c as u32
                     ),
-                    J::obj().with("kind", J::s("ascii-search")).with("layout", J::s(LAYOUT_NAMES[li])).with("form", J::s(FORM_NAMES[form])).with("char", J::u(c as u64)),
+                    J::obj().with("kind", J::s("ascii-search")).with("layout", J::s(layout_name(li))).with("form", J::s(FORM_NAMES[form])).with("char", J::u(c as u64)),
                 );
             }
             if form == 0 {
@@ -777,7 +780,7 @@ pub fn run_c12(rep: &mut Report) {
                     .iter()
                     .filter_map(|c| found.get(c).map(|(k, m)| format!("'{}'={:?}{}", c, k, mods_str(*m & !B_NUMLOCK))))
                     .collect();
-                rep.sample_str(format!("{}: {}", LAYOUT_NAMES[li], w.join("  ")));
+                rep.sample_str(format!("{}: {}", layout_name(li), w.join("  ")));
             }
         }
     }
@@ -795,8 +798,8 @@ pub fn run_c12(rep: &mut Report) {
 pub fn run_c15(rep: &mut Report) {
     let cube = cube_common("C15", rep);
     let mut distinct: BTreeSet<(usize, usize, bool)> = BTreeSet::new();
-    for li in 0..10 {
-        let seps = decimal_seps(LAYOUT_NAMES[li]);
+    for li in 0..cube.n_layouts {
+        let seps: &[char] = if li < 10 { decimal_seps(layout_name(li)) } else { &[',', '.'] };
         let ret_i = cube.key_index(KeyCode::Return).unwrap();
         for form in 0..1 {
             for mode in 0..2 {
@@ -810,10 +813,10 @@ pub fn run_c15(rep: &mut Report) {
                             distinct.insert((li, ki, nl));
                         } else {
                             rep.violate(
-                                format!("C15|{}|key={:?}|numlock={}|want={}|got={}", LAYOUT_NAMES[li], key, nl, want, cube.show(got)),
+                                format!("C15|{}|key={:?}|numlock={}|want={}|got={}", layout_name(li), key, nl, want, cube.show(got)),
                                 format!(
                                     "{} ({}): {:?} with {} (Ctrl mode {}) gives {}; expected {}",
-                                    LAYOUT_NAMES[li],
+                                    layout_name(li),
                                     FORM_NAMES[form],
                                     key,
                                     mods_str(m),
@@ -873,7 +876,7 @@ pub fn run_c15(rep: &mut Report) {
                 return Acc::OneOf(vec![0x0A]);
             }
             if key == KeyCode::NumpadPeriod {
-                return if nl { Acc::OneOf(decimal_seps(LAYOUT_NAMES[li]).iter().map(|x| *x as u32).collect()) } else { Acc::OneOf(vec![0x7F]) };
+                return if nl { Acc::OneOf((if li < 10 { decimal_seps(layout_name(li)) } else { &[',', '.'][..] }).iter().map(|x| *x as u32).collect()) } else { Acc::OneOf(vec![0x7F]) };
             }
             if let Some((_, ch)) = EDIT_KEYS.iter().find(|(k, _)| *k == key) {
                 return Acc::OneOf(vec![*ch as u32]);
@@ -892,7 +895,7 @@ pub fn run_c15(rep: &mut Report) {
         let ki = cube.key_index(key).unwrap();
         rep.sample_str(format!(
             "{} {:?}: NumLock on → {}, off → {}",
-            LAYOUT_NAMES[li],
+            layout_name(li),
             key,
             cube.show(cube.get(li, 0, ki, 1, B_NUMLOCK)),
             cube.show(cube.get(li, 0, ki, 1, 0))
@@ -906,7 +909,7 @@ pub fn run_c16(rep: &mut Report) {
     let cube = cube_common("C16", rep);
     let mut distinct: BTreeSet<(usize, usize)> = BTreeSet::new();
     let mut raw_outputs = 0u64;
-    for li in 0..10 {
+    for li in 0..cube.n_layouts {
         for form in 0..3 {
             for (ki, key) in cube.keys.iter().enumerate() {
                 let charless = CHARLESS.contains(key);
@@ -919,10 +922,10 @@ pub fn run_c16(rep: &mut Report) {
                         if charless && got != own {
                             row_ok = false;
                             rep.violate(
-                                format!("C16|{}|charless-key={:?}|got={}", LAYOUT_NAMES[li], key, cube.show(got)),
+                                format!("C16|{}|charless-key={:?}|got={}", layout_name(li), key, cube.show(got)),
                                 format!(
                                     "{} ({}): {:?} carries no character on any keyboard and must decode to its own raw key; with {} (mode {}) it gives {}",
-                                    LAYOUT_NAMES[li],
+                                    layout_name(li),
                                     FORM_NAMES[form],
                                     key,
                                     mods_str(m),
@@ -938,10 +941,10 @@ pub fn run_c16(rep: &mut Report) {
                             if got != own && !alias_ok {
                                 row_ok = false;
                                 rep.violate(
-                                    format!("C16|{}|masquerade|key={:?}|got={}|numlock={}", LAYOUT_NAMES[li], key, cube.show(got), m & B_NUMLOCK != 0),
+                                    format!("C16|{}|masquerade|key={:?}|got={}|numlock={}", layout_name(li), key, cube.show(got), m & B_NUMLOCK != 0),
                                     format!(
                                         "{} ({}): pressing {:?} with {} (mode {}) decodes to {} – neither the key itself nor its NumLock-off navigation alias",
-                                        LAYOUT_NAMES[li],
+                                        layout_name(li),
                                         FORM_NAMES[form],
                                         key,
                                         mods_str(m),
@@ -1006,10 +1009,10 @@ pub fn run_c17(rep: &mut Report) {
                         if bare != wrapped {
                             row_ok = false;
                             rep.violate(
-                                format!("C17|{}|form={}|key={:?}|bare={}|wrapped={}", LAYOUT_NAMES[li], FORM_NAMES[form], key, cube.show(bare), cube.show(wrapped)),
+                                format!("C17|{}|form={}|key={:?}|bare={}|wrapped={}", layout_name(li), FORM_NAMES[form], key, cube.show(bare), cube.show(wrapped)),
                                 format!(
                                     "AnyLayout::{} used {} gives {} for {:?} with {} (mode {}); the wrapped layout itself gives {}",
-                                    LAYOUT_NAMES[li],
+                                    layout_name(li),
                                     if form == 1 { "by value" } else { "by reference" },
                                     cube.show(wrapped),
                                     key,
@@ -1057,23 +1060,23 @@ pub fn run_c17(rep: &mut Report) {
                 Ok(bad) => {
                     for (k, got, want) in bad {
                         rep.violate(
-                            format!("C17|switch|{}→{}|key={:?}|want={}|got={}", LAYOUT_NAMES[a], LAYOUT_NAMES[b], k, dk_str(&want), odk_str(&got)),
+                            format!("C17|switch|{}→{}|key={:?}|want={}|got={}", layout_name(a), layout_name(b), k, dk_str(&want), odk_str(&got)),
                             format!(
                                 "EventDecoder<AnyLayout>: after change_layout from {} to {}, pressing {:?} gives {} but {} itself gives {}",
-                                LAYOUT_NAMES[a],
-                                LAYOUT_NAMES[b],
+                                layout_name(a),
+                                layout_name(b),
                                 k,
                                 odk_str(&got),
-                                LAYOUT_NAMES[b],
+                                layout_name(b),
                                 dk_str(&want)
                             ),
-                            J::obj().with("kind", J::s("anylayout-switch")).with("from", J::s(LAYOUT_NAMES[a])).with("to", J::s(LAYOUT_NAMES[b])).with("key", J::s(kname(k))),
+                            J::obj().with("kind", J::s("anylayout-switch")).with("from", J::s(layout_name(a))).with("to", J::s(layout_name(b))).with("key", J::s(kname(k))),
                         );
                     }
                 }
                 Err(p) => {
                     rep.panics += 1;
-                    rep.violate(format!("C17|switch|panic|{}", panic_sig(&p)), format!("change_layout {}→{} panicked: {}", LAYOUT_NAMES[a], LAYOUT_NAMES[b], p), J::Null);
+                    rep.violate(format!("C17|switch|panic|{}", panic_sig(&p)), format!("change_layout {}→{} panicked: {}", layout_name(a), layout_name(b), p), J::Null);
                 }
             }
         }
@@ -1100,8 +1103,8 @@ pub fn run_c17(rep: &mut Report) {
         rep.evaluations += cube.keys.len() as u64;
         if r != Ok(0) {
             rep.violate(
-                format!("C17|keyboard-with-ref-wrapper|{}|{:?}", LAYOUT_NAMES[li], r),
-                format!("Keyboard<&AnyLayout, _> over {} disagrees with the bare layout on {:?} keys", LAYOUT_NAMES[li], r),
+                format!("C17|keyboard-with-ref-wrapper|{}|{:?}", layout_name(li), r),
+                format!("Keyboard<&AnyLayout, _> over {} disagrees with the bare layout on {:?} keys", layout_name(li), r),
                 J::Null,
             );
         }
